@@ -536,3 +536,35 @@ def rule_filled_fields_accepted_back(model: Model, rule_id: str = 'C05-R16') -> 
     if not r.instances:
         raise AnalysisError("no library dataclass with a filling __post_init__ found (pane.types.Range)")
     return r
+
+
+# ---------------------------------------------------------------------------- C06: a path is built by its class and nothing else
+
+
+def rule_path_built_by_its_class(model: Model, rule_id: str = 'C06-R7') -> RuleResult:
+    """The converter of a path type constructs the declared class from the text and does nothing more: any normalisation on the way
+    in (``expanduser``, ``resolve`` ...) makes ``convert(p, Path)`` differ from ``p`` for an already-typed path."""
+    r = RuleResult(rule_id, "the PathLike arm of make_converter hands ScalarConverter the path class itself", floor=1)
+    f = model.func('pane.convert.make_converter')
+    r.analysed.add(f.qualname)
+    calls = [c for c in ast.walk(f.node) if isinstance(c, ast.Call) and unparse(c.func).endswith('ScalarConverter')
+             and any(isinstance(a, ast.Constant) and a.value == 'a path' for a in c.args)]
+    if not calls:
+        raise AnalysisError(f"{f.loc()}: make_converter builds no ScalarConverter(..., 'a path', ...)")
+    nested = {x.name for x in ast.walk(f.node) if isinstance(x, ast.FunctionDef) and x is not f.node}
+    for c in calls:
+        r.instances += 1
+        a0 = c.args[0] if c.args else None
+        vals: t.List[ast.AST] = [a0] if a0 is not None else []
+        if isinstance(a0, ast.Name):
+            vals += _local_values(f.node, a0.id)
+        wrapped = [v for v in vals if isinstance(v, (ast.Lambda,)) or (isinstance(v, ast.Call) and unparse(v.func).endswith('partial'))]
+        if isinstance(a0, ast.Name) and a0.id in nested:
+            wrapped.append(a0)
+        if wrapped:
+            r.fail(f.qualname, f"path constructor is a wrapper ({unparse(wrapped[0])[:40]})", f.loc(c),
+                   "the value is passed through a function of the library on the way in: an already-typed path that the function changes "
+                   "(`~/x` under expanduser) is no longer a fixed point of convert, and constructors no longer store it unchanged")
+        else:
+            r.ok()
+    return r
